@@ -117,4 +117,114 @@ example : V1.parseStr good = .ok { header := good.take 15, addresses := .unknown
 example : V1.parseBytes good = .ok { header := good.take 15, addresses := .unknown } := by decide
 example : V1.fromStrAddresses good = .ok .unknown := by decide
 
+/-! ## The packaged statement -/
+
+/-- **C16 (agreement, as the property states it).** For every input that is a `&str`,
+either all four entry points give the same outcome — the byte entry point wrapping the
+text error in `BinaryParseError::Parse`, `FromStr for Addresses` projecting the
+addresses — or the examined window ends inside a multi-byte character and all four
+return an error (`InvalidUtf8` from bytes, `InvalidSuffix` from the three text ones). -/
+theorem entry_points (x : B) (hx : Utf8.valid x = true) :
+    (V1.parseBytes x = (match V1.parseStr x with | .ok h => .ok h | .error e => .error (.parse e)) ∧
+      V1.fromStrHeader x = V1.parseStr x ∧
+      V1.fromStrAddresses x = (V1.parseStr x).map (·.addresses))
+    ∨ (V1.parseBytes x = .error .invalidUtf8 ∧ V1.parseStr x = .error .invalidSuffix ∧
+      V1.fromStrHeader x = .error .invalidSuffix ∧ V1.fromStrAddresses x = .error .invalidSuffix) := by
+  have hmap : V1.fromStrAddresses x = (V1.parseStr x).map (·.addresses) := by
+    unfold V1.fromStrAddresses; cases V1.parseStr x <;> rfl
+  cases hw : V1.windowLength x with
+  | none =>
+    obtain ⟨h1, h2, h3, -⟩ := entry_points_agree_too_long x hw
+    exact .inl ⟨by rw [h1, h2], by rw [h3, h2], hmap⟩
+  | some n =>
+    cases hb : Utf8.isCharBoundary x n with
+    | true =>
+      obtain ⟨h1, h2, -⟩ := entry_points_agree x hx n hw hb
+      exact .inl ⟨h1, h2, hmap⟩
+    | false => exact .inr (mid_char_all_errors x hx n hw hb)
+
+/-- **C16 (when the entry points differ).** The second case of `entry_points` — the byte
+entry point reports `InvalidUtf8`, the text ones `InvalidSuffix` — happens exactly when
+the examined window (through the byte after the first CR) ends off a character boundary. -/
+theorem entry_points_mid_char_iff (x : B) (hx : Utf8.valid x = true) :
+    (V1.parseBytes x = .error .invalidUtf8 ∧ V1.parseStr x = .error .invalidSuffix ∧
+      V1.fromStrHeader x = .error .invalidSuffix ∧ V1.fromStrAddresses x = .error .invalidSuffix) ↔
+    ∃ n, V1.windowLength x = some n ∧ Utf8.isCharBoundary x n = false := by
+  constructor
+  · rintro ⟨hb, hs, -, -⟩
+    cases hw : V1.windowLength x with
+    | none =>
+      rw [(entry_points_agree_too_long x hw).1] at hb; cases hb
+    | some n =>
+      cases hc : Utf8.isCharBoundary x n with
+      | false => exact ⟨n, rfl, hc⟩
+      | true =>
+        have h1 := (entry_points_agree x hx n hw hc).1
+        rw [hs] at h1
+        rw [h1] at hb; cases hb
+  · rintro ⟨n, hw, hc⟩
+    exact mid_char_all_errors x hx n hw hc
+
+/-- The byte entry point alone already decides the case: on a `&str` it reports
+`InvalidUtf8` exactly when the window ends off a character boundary. -/
+theorem parseBytes_invalidUtf8_iff (x : B) (hx : Utf8.valid x = true) :
+    V1.parseBytes x = .error .invalidUtf8 ↔
+      ∃ n, V1.windowLength x = some n ∧ Utf8.isCharBoundary x n = false := by
+  constructor
+  · intro hb
+    rcases entry_points x hx with ⟨h1, -, -⟩ | h2
+    · rw [hb] at h1
+      cases hs : V1.parseStr x <;> rw [hs] at h1 <;> cases h1
+    · exact (entry_points_mid_char_iff x hx).mp h2
+  · intro h; exact ((entry_points_mid_char_iff x hx).mpr h).1
+
+/-- The two cases of `entry_points` exclude each other. -/
+theorem entry_points_exclusive (x : B)
+    (h1 : V1.parseBytes x = (match V1.parseStr x with | .ok h => .ok h | .error e => .error (.parse e)))
+    (h2 : V1.parseBytes x = .error .invalidUtf8) : False := by
+  rw [h2] at h1
+  cases hs : V1.parseStr x <;> rw [hs] at h1 <;> cases h1
+
+/-- Hence the agreeing case holds exactly when there is no window (no CR within 107
+bytes) or the window ends on a character boundary. -/
+theorem entry_points_agree_iff (x : B) (hx : Utf8.valid x = true) :
+    (V1.parseBytes x = (match V1.parseStr x with | .ok h => .ok h | .error e => .error (.parse e)) ∧
+      V1.fromStrHeader x = V1.parseStr x ∧
+      V1.fromStrAddresses x = (V1.parseStr x).map (·.addresses)) ↔
+    (V1.windowLength x = none ∨ ∃ n, V1.windowLength x = some n ∧ Utf8.isCharBoundary x n = true) := by
+  constructor
+  · rintro ⟨h1, -, -⟩
+    cases hw : V1.windowLength x with
+    | none => exact .inl rfl
+    | some n =>
+      cases hc : Utf8.isCharBoundary x n with
+      | true => exact .inr ⟨n, rfl, hc⟩
+      | false => exact (entry_points_exclusive x h1 (mid_char_all_errors x hx n hw hc).1).elim
+  · intro h
+    rcases entry_points x hx with h1 | h2
+    · exact h1
+    · obtain ⟨n, hw, hc⟩ := (entry_points_mid_char_iff x hx).mp h2
+      rcases h with h | ⟨m, hm, hc'⟩
+      · rw [hw] at h; cases h
+      · rw [hw] at hm; cases hm; rw [hc] at hc'; cases hc'
+
+/-! ### Non-vacuity of the packaged statement: both cases occur on valid text -/
+
+example : V1.parseBytes cut = .error .invalidUtf8 ∧ V1.parseStr cut = .error .invalidSuffix ∧
+    V1.fromStrHeader cut = .error .invalidSuffix ∧ V1.fromStrAddresses cut = .error .invalidSuffix :=
+  (entry_points_mid_char_iff cut (by decide)).mpr ⟨15, by decide, by decide⟩
+
+example : V1.parseBytes good = (match V1.parseStr good with | .ok h => .ok h | .error e => .error (.parse e)) ∧
+    V1.fromStrHeader good = V1.parseStr good ∧
+    V1.fromStrAddresses good = (V1.parseStr good).map (·.addresses) :=
+  (entry_points_agree_iff good (by decide)).mpr (.inr ⟨15, by decide, by decide⟩)
+
+/-- `hx` is needed: on bytes that are not text (a CR and a stray continuation byte)
+neither case of `entry_points` holds — the window is the whole input, so its end counts as
+a boundary and the model of `TryFrom<&str>` (only meaningful on text) goes on to
+`InvalidPrefix`, while the byte entry point stops at `InvalidUtf8`. -/
+example : Utf8.valid [0x0D, 0x80] = false ∧ V1.windowLength [0x0D, 0x80] = some 2 ∧
+    V1.parseBytes [0x0D, 0x80] = .error .invalidUtf8 ∧
+    V1.parseStr [0x0D, 0x80] = .error .invalidPrefix := by decide
+
 end C16
